@@ -190,10 +190,9 @@ func (ws *GetRight) Get(ctx context.Context, proxy string,
 		}
 	}
 
-	reader := io.Reader(r.Body)
-	if l > length {
-		reader = io.LimitReader(reader, length)
-	}
+	// never copy more than we asked for, the body may be longer than
+	// what the server announced
+	reader := io.LimitReader(r.Body, length)
 
 	n, err := io.Copy(w, reader)
 	ws.Accumulate(int(n))
